@@ -61,7 +61,7 @@ fn base_world() -> Base {
     token::fund_ata(&mut w.svm, &lp, &sol_mint, 20_000_000_000_000);
     token::fund_ata(&mut w.svm, &lp, &usdc_mint, 3_000_000_000_000);
     let d = w
-        .create_deposit(lp, market, 10_000_000_000_000, 1_500_000_000_000, None, None, &[], &[], 0)
+        .create_deposit(lp, market, 800_000_000_000, 700_000_000_000, None, None, &[], &[], 0)
         .unwrap_or_else(|(e, _)| panic!("bootstrap: create_deposit {e:?}"));
     w.execute_deposit(d, true).unwrap_or_else(|(e, _)| panic!("bootstrap: execute_deposit {e:?}"));
     w.close_deposit(lp, d).unwrap_or_else(|(e, _)| panic!("bootstrap: close_deposit {e:?}"));
@@ -364,7 +364,7 @@ fn check_get_mint_amount(w: &World, rng: &mut Rng, n: usize, md: &Model, m: &mut
         let size = match rng.below(5) {
             0 => rng.biased_u128(u128::MAX, cost.max(1)),
             1 => cost.saturating_mul(rng.log_u64(u64::MAX) as u128).saturating_add(rng.below_u128(cost.max(1))),
-            2 => cost.saturating_mul(u64::MAX as u128).saturating_add(rng.range_u128(0, 2 * cost.max(1))).saturating_sub(cost.max(1)),
+            2 => cost.saturating_mul(u64::MAX as u128).saturating_add(rng.range_u128(0, cost.max(1).saturating_mul(2))).saturating_sub(cost.max(1)),
             3 => rng.log_u128(u128::MAX),
             _ => rng.log_u128(10_000 * UNIT),
         };
@@ -429,7 +429,10 @@ fn mint_amount(rng: &mut Rng, md: &Model) -> u64 {
         6 if md.total > 0 => u64::MAX,
         7 if md.total > 0 => u64::MAX - md.total + rng.range(0, 1),
         8 => rng.log_u64(s.saturating_mul(50)).max(1),
-        _ => rng.range(1, s.saturating_mul(rng.range(1, 4))),
+        _ => {
+            let k = rng.range(1, 4);
+            rng.range(1, s.saturating_mul(k))
+        }
     }
 }
 
@@ -497,7 +500,10 @@ fn op_twin(w: &World, md: &Model, rng: &mut Rng, m: &mut Monitor, cx: &Ctx, user
     let x = match rng.below(3) {
         0 => s.saturating_mul(rng.range(1, 30)),
         1 => (s - md.total % s).saturating_add(rng.below(s.saturating_mul(3))),
-        _ => rng.range(1, s.saturating_mul(rng.range(1, 12))),
+        _ => {
+            let k = rng.range(1, 12);
+            rng.range(1, s.saturating_mul(k))
+        }
     };
     if !md.steps_ok(x) || md.total.checked_add(x).is_none() {
         m.count("twin_skipped");
@@ -559,16 +565,16 @@ fn op_order(base: &Base, w: &mut World, md: &mut Model, rng: &mut Rng, m: &mut M
     }
     let owner = *rng.pick(&base.users);
     let user = w.user_pda(&owner);
-    let pos_key = w.position_pda(&owner, base.market, true, false);
+    let pos_key = w.position_pda(&owner, base.market, false, false);
     let size_now = load::<Position>(&w.svm, &pos_key).map(|p| p.state.size_in_usd).unwrap_or(0);
     let decrease = size_now > 0 && rng.chance(2, 5);
     let mut req;
     if decrease {
-        req = OrderReq::new(OrderKind::MarketDecrease, base.market, true, false);
+        req = OrderReq::new(OrderKind::MarketDecrease, base.market, false, false);
         req.size_delta_value = if rng.chance(1, 3) { size_now } else { (size_now / 100 * rng.range(5, 95) as u128).max(UNIT) };
     } else {
-        req = OrderReq::new(OrderKind::MarketIncrease, base.market, true, false);
-        let usd = rng.range(20, 40_000) as u128;
+        req = OrderReq::new(OrderKind::MarketIncrease, base.market, false, false);
+        let usd = rng.log_u64(30_000).max(20) as u128;
         req.size_delta_value = usd * UNIT + rng.below_u128(UNIT);
         req.initial_collateral_delta_amount = ((usd / rng.range(2, 8) as u128 + 5) * 1_000_000) as u64;
     }
@@ -1023,7 +1029,7 @@ fn history(base: &Base, rng: &mut Rng, m: &mut Monitor, seed: u64, shard: u64, h
         }
         m.count(if w.gt_set_referral_reward_factors(f).is_ok() { "referral_factors_set" } else { "referral_factors_rejected" });
     }
-    if rng.chance(4, 5) {
+    if rng.chance(9, 10) {
         if w.toggle_gt_minting(base.market, true).is_ok() {
             md.minting_enabled = true;
             m.count("toggle_gt_minting_ok");
@@ -1072,7 +1078,7 @@ fn history(base: &Base, rng: &mut Rng, m: &mut Monitor, seed: u64, shard: u64, h
                 op_request(&mut w, &mut md, rng, m, &mut cx, &base.users);
             }
             8 => {
-                let enable = rng.bool();
+                let enable = rng.chance(3, 4);
                 cx.log.push(format!("toggle_gt_minting {enable}"));
                 if w.toggle_gt_minting(base.market, enable).is_ok() {
                     md.minting_enabled = enable;
@@ -1125,7 +1131,7 @@ fn history(base: &Base, rng: &mut Rng, m: &mut Monitor, seed: u64, shard: u64, h
     check_get_mint_amount(&w, rng, 12, &md, m, &cx);
     m.max("max_cost_steps_in_a_history", md.steps() as u64);
     m.max("max_vaults_in_a_history", md.vaults.len() as u64);
-    if m.wants_sample() && md.total > 0 && m.counter("sampled_histories") < 3 {
+    if m.wants_sample() && md.total > 0 && m.counter("sampled_histories") < 1 {
         m.count("sampled_histories");
         let gt = w.gt_state().expect("gt");
         m.sample(json!({
@@ -1153,9 +1159,9 @@ pub fn run(args: &Args) -> Option<i32> {
     );
     mon.assume("rank tables longer than 15 entries: init keeps the first 15 (MAX_RANK); the rank oracle counts thresholds of the stored prefix");
     mon.assume("single mints are kept below 3000 cost steps (the program loops once per step); amounts otherwise arbitrary incl. u64::MAX");
-    mon.assume("prices are constant (BTC 60000, SOL 150, USDC 1); order fees use the market's default fee factors");
-    let shards = args.scale(64, 448);
-    let hist_per_shard = args.scale(5, 12);
+    mon.assume("prices are constant (BTC 60000, SOL 150, USDC 1); orders are short positions with USDC collateral; order fees use the market's default fee factors");
+    let shards = args.scale(64, 512);
+    let hist_per_shard = args.scale(10, 12);
     let (seed, tier_ops) = (args.seed, args.scale(70, 110));
     run_shards(&mut mon, args.threads, shards, |shard, m| {
         let base = base_world();
